@@ -6,15 +6,15 @@ EXCL = {
  'C01': 'IEEE rounding (real field)', 'C02': 'IEEE rounding', 'C03': 'IEEE rounding; integer overflow (inputs bounded)', 'C04': 'IEEE rounding', 'C05': 'IEEE rounding',
  'C06': 'IEEE rounding; trigonometric functions are axiomatised, not evaluated',
  'C07': 'IEEE rounding; the four z-dependent entries of the 0.13 gimbal bound',
- 'C08': 'IEEE rounding; Matrix4 vector laws for non-affine matrices (false there)',
+ 'C08': 'IEEE rounding; Matrix4 composition laws on vectors for non-affine matrices (false there)',
  'C09': 'IEEE rounding; Quaternion look_at agreement is compositional (C05 round trip + structural equality)',
  'C10': 'IEEE rounding; degenerate accepted frustum parameters (left = right ...) divide by zero',
  'C11': 'IEEE rounding', 'C12': 'IEEE rounding; centroid beyond 8 points; integer midpoint',
  'C13': 'modular clauses beyond 64 turns (8 for bisect); 4-epsilon clause outside the normal range; values of sin/cos themselves',
- 'C14': 'IEEE rounding; the 1e-5 rad clause on the nlerp hand-over path',
+ 'C14': 'IEEE rounding (f32 twins model f32 literals and tolerances, not f32 rounding); the 1e-5 rad clause on the nlerp hand-over path',
  'C15': 'IEEE rounding; from_arc tolerance outside lengths [1e-3, 1e3] (known finding)',
  'C16': 'element types outside the table; the quick tier samples element types',
- 'C17': 'programs are sampled (20 / 200 per seed)', 'C18': 'the scalar relations themselves (approx crate) are opaque atoms with a contract',
+ 'C17': 'programs are sampled (20 / 200 per seed)', 'C18': 'the scalar relations themselves (approx crate) are opaque atoms with a contract; the value of the default tolerances',
  'C19': 'quick tier: 24 of 144 pairs', 'C20': 'text formats (serde_json float printing)'}
 rows = []
 for f in sorted(glob.glob(os.path.join(V, 'evidence', 'C*.json'))):
@@ -26,7 +26,7 @@ for f in sorted(glob.glob(os.path.join(V, 'evidence', 'C*.json'))):
         n = len(hs) if hs is not None else c.get('harness_count', '?')
         rows.append('| %s | K | %s | %s CBMC checks | %.0f | %s |' % (p, n, c.get('transitions'), e['wall_s'], EXCL[p]))
 txt = ("### 10.7 As built, per property (from the committed evidence of the last clean %s sweep)\n\n"
-       "| property | engine | harnesses | decided | wall s | outside the claim |\n|---|---|---|---|---|---|\n" % json.load(open(os.path.join(V, 'evidence', 'C01.json')))['tier']) + '\n'.join(rows) + "\n\nThe thorough tier of all twenty checks passes on the unchanged tree (measured: 15-260 s each; C17 with 200 programs 173 s, C16 with 293 harnesses 189 s, C20 258 s).\n"
+       "| property | engine | harnesses | decided | wall s | outside the claim |\n|---|---|---|---|---|---|\n" % json.load(open(os.path.join(V, 'evidence', 'C01.json')))['tier']) + '\n'.join(rows) + "\n\nThe thorough tier of all twenty checks passes on the unchanged tree (last full thorough sweep, run while twenty other builds were using the machine: 10-410 s each; C14 271 s, C16 with 293 harnesses 300 s, C17 with 200 programs 185 s, C20 406 s).\n"
 p = os.path.join(V, 'DESIGN.md')
 s = open(p).read()
 i = s.find('### 10.7')
